@@ -5,6 +5,7 @@ package main
 
 import (
 	"bytes"
+	"math/big"
 	"math/rand"
 	"sort"
 
@@ -21,6 +22,10 @@ type Input struct {
 	Pre    [][]byte      `json:"pre,omitempty"` // names already in the second dictionary
 	Mode   string        `json:"mode,omitempty"`
 	Bad    *BadSpec      `json:"bad,omitempty"` // corrupt the SerializeNoDict output and decode it (model only)
+	// scale an Insert-built tree with Tree.Clone(m/d) first (what storage does with a multi-slot upload):
+	// every value is floored independently, so totals may exceed self + children
+	CloneM uint64 `json:"clone_m,omitempty"`
+	CloneD uint64 `json:"clone_d,omitempty"`
 }
 
 // BadSpec describes one corruption of the self-contained stream. Only used with trees whose stream consists of
@@ -67,7 +72,31 @@ func build(in Input) *tree.Tree {
 	if in.Tree != nil {
 		return tree.VerifBuild(treeu.FromJ(in.Tree))
 	}
-	return treeu.Build(in.Stacks)
+	t := treeu.Build(in.Stacks)
+	if in.CloneD != 0 {
+		t = t.Clone(new(big.Rat).SetFrac(new(big.Int).SetUint64(in.CloneM), new(big.Int).SetUint64(in.CloneD)))
+	}
+	return t
+}
+
+// totals class of the dumped tree (a feature for the evidence, not a check)
+func totalsClass(n *tree.VerifNode) string {
+	cls := "exact"
+	var rec func(n *tree.VerifNode)
+	rec = func(n *tree.VerifNode) {
+		sum := n.Self
+		for _, c := range n.Children {
+			sum += c.Total
+			rec(c)
+		}
+		if n.Total < sum {
+			cls = "nonsub"
+		} else if n.Total > sum && cls == "exact" {
+			cls = "sub-inexact"
+		}
+	}
+	rec(n)
+	return cls
 }
 
 func optTree(f func() (*tree.Tree, error)) (res string) {
@@ -173,7 +202,7 @@ func run(in Input) lib.Result {
 		NonTrivial: ties > 0 || (in.Cap >= n-1 && in.Cap <= n+1),
 		Feat: map[string]interface{}{"nodes_class": sizeClass(n), "cap_vs_nodes": rel, "ties_class": sizeClass(ties),
 			"zero_total_nodes_class": sizeClass(zeros), "mode": mode, "built_by": builtBy(in), "pre_dict": len(in.Pre) > 0,
-			"threshold_zero": minv == 0, "malformed_stream": badKind(in)},
+			"threshold_zero": minv == 0, "malformed_stream": badKind(in), "totals": totalsClass(orig), "cloned": in.CloneD != 0},
 		Obs: map[string]interface{}{"nodes": n, "minval": minv},
 	}
 }
@@ -299,10 +328,14 @@ func genTree(r *rand.Rand, n int, mode string) *treeu.JNode {
 			tot += fix(c)
 		}
 		nd.Total = tot
-		if mode == "inexact" && r.Intn(3) == 0 {
+		if mode == "nonsub" && r.Intn(3) == 0 { // inconsistent (total may be below the sum): model only
 			nd.Total = uint64(lib.Range(r, 0, int(tot)+3))
+			return tot
 		}
-		return tot
+		if mode == "subinexact" && r.Intn(3) == 0 { // total exceeds self + children, as after Clone's flooring
+			nd.Total = tot + uint64(lib.Pick(r, []int{1, 1, 1, 2, 3}))
+		}
+		return nd.Total
 	}
 	fix(nodes[0])
 	return nodes[0]
@@ -341,7 +374,13 @@ func gen(r *rand.Rand, idx int, tier string) Input {
 	case x < 4: // built by Insert
 		ns := lib.Range(r, 0, 12)
 		in.Stacks = treeu.RandStacks(r, ns, 5, 6)
-		t := treeu.Build(in.Stacks)
+		if r.Intn(2) == 0 { // floor-scaled copy, ratios that do not divide the counts
+			in.CloneM, in.CloneD = lib.Pick(r, [][2]uint64{{7, 8}, {1, 2}, {1, 3}, {2, 3}, {3, 10}, {9, 10}, {1, 8}, {5, 7}, {1, 1}, {3, 2}})[0], 0
+			md := lib.Pick(r, [][2]uint64{{7, 8}, {1, 2}, {1, 3}, {2, 3}, {3, 10}, {9, 10}, {1, 8}, {5, 7}, {1, 1}, {3, 2}})
+			in.CloneM, in.CloneD = md[0], md[1]
+			in.Mode = "cloned"
+		}
+		t := build(in)
 		in.Cap = pickCap(r, treeu.Size(t.VerifDump()))
 		return in
 	case x < 15:
@@ -363,7 +402,7 @@ func gen(r *rand.Rand, idx int, tier string) Input {
 	case x == 17:
 		in.Mode = "dup"
 	case x == 18:
-		in.Mode = "inexact"
+		in.Mode = lib.Pick(r, []string{"nonsub", "subinexact", "subinexact"})
 	default:
 		in.Mode = "unsorted"
 	}
